@@ -25,7 +25,11 @@ META = dict(
          "headers and handler bytes (gRPC code) with the allowed set. Scripts may also end in WriteHeader(0/99/1000), a panic raised "
          "inside the response writer; a request without any response for 20 s is reported as a hung client with the goroutines "
          "inside the chain. RPC handlers that overrun may honour their context, ignore it for 1.5 s or never end: the answer must "
-         "arrive at the deadline/cancel (client within 1 s of a 150 ms time-out; observer interceptor within 1 s of the cancel). Handlers are gated on ctx.Done, so no verdict races a timer; "
+         "arrive at the deadline/cancel (client within 1 s of a 150 ms time-out; observer interceptor within 1 s of the cancel). "
+         "The panic clause is also stressed: 200k-2M concurrent panicking calls in-process through UnaryCrashInterceptor around the "
+         "interceptors of the real setupInterceptors (a (nil, nil) result = panic swallowed), 6k-64k over the wire, 30k-300k concurrent "
+         "panicking requests through the engine chain (all must be 500). A runtime fatal error / unrecovered panic / race report of "
+         "the process hosting the REST chain is reported as C02:rest:server-crash. Handlers are gated on ctx.Done, so no verdict races a timer; "
          "real-time probes (handler ending at 0.5 T and 0.95 T of a 2 s Config.Timeout; 2 s deadline on the started server) keep "
          ">= 100 ms from every boundary, must reproduce 3 times and are discarded when the machine stalls.",
     note="Trusted: TLC, net/http and grpc-go clients, the gated handler. Not covered: the stress trace validation of DESIGN 4/C02(c) "
